@@ -27,7 +27,7 @@ On(v) == [on |-> TRUE, v |-> v]
 VInt == {-4, 0, 6, 8}      \* -1, 0, 1.5, 2        (quarters; a non-integral bound on an integer is legal)
 VNum == {-2, 0, 1, 6}      \* -0.5, 0, 0.25, 1.5
 V(t_) == IF t_ = "integer" THEN VInt ELSE VNum
-Mults(t_) == IF t_ = "integer" THEN {4, 8, 12} ELSE {1, 2, 6}   \* 1,2,3 / 0.25,0.5,1.5
+Mults(t_) == IF t_ = "integer" THEN {4, 8, 12} ELSE {1, 2, 4, 6}   \* 1,2,3 / 0.25,0.5,1,1.5 (1: the no-op for integers is a real constraint for numbers)
 
 Incl(t_) == {Off} \cup {On(JNum(v)) : v \in V(t_)}
 Excl(t_) == {Off, On([k |-> "b", b |-> TRUE]), On([k |-> "b", b |-> FALSE])}
